@@ -7,7 +7,7 @@ LEVEL = "proof"
 LEAN_IMPORTS = ["WM.Props.C09"]
 THEOREMS = ["WM.C09.scores", "WM.C09.score_of_entry", "WM.C09.collector_independent", "WM.C09.models",
             "WM.C09.layout", "WM.C09.layout_models", "WM.C09.lengthbyte", "WM.C09.cursor_scores",
-            "WM.C09.search_limit"]
+            "WM.C09.search_limit", "WM.C09.term_top_scores"]
 _LIST = ("list level: about WM.Compile.compile (the (doc, score) list a per-segment matcher tree enumerates), not "
          "about the cursors' score()/block_quality()/skip_to_quality of whoosh/matching (C11/C12; Lean bridge "
          "WM.C09.cursor_scores: score() of the cursor tree after any next/skip_to/replace program is scoreOf, for "
@@ -27,6 +27,11 @@ PARTIAL = {
                             "ValidOracle; programs of next/skip_to/replace() only (skip_to_quality and replace(q) are "
                             "C12's contract, composed for top-N by search_limit); the cursor constructors are the "
                             "matcher family's model.",
+    "WM.C09.term_top_scores": "Term queries on the top searcher only (see C01 term_top: MultiMatcher over "
+                              "ListMatcher-modelled posting readers); hypotheses PosQ / IndexOK (positive boost and "
+                              "leaf scores); compound trees over multi leaves are compared end-to-end; tied to the "
+                              "code by stepping Term.matcher(top searcher) and the model with one program, ids and "
+                              "scores (stats top:*).",
     "WM.C09.collector_independent": _LIST + "'collector' = needs_current (terms=True vs plain search) x tree-shape "
                                     "oracle, the only way a collector reaches Query.matcher; top-N/limit, quality "
                                     "skipping, replace() (C05) and sorting/filtering/collapsing collectors (C14) "
@@ -51,7 +56,12 @@ RULE = ("random schema/corpus/history/query tree per sub-seed (streams: exact Fr
         "BM25F with model-wide B in {0, .5, .75, 1}, K1 in {.5, 1.2, 2} and independent per-field <field>_B in "
         "{0.0, .25, .5, .9, 1.0} for t/u/k/x; "
         "final() hook reading the stored key; other = Function/PL2/DFree/Reverse; layout = same documents, two "
-        "commit/merge partitions); a case = (index, query, scored path) or "
+        "commit/merge partitions; weak = a strong term of varying frequency as required / dominant clause with a weak "
+        "compound (Or/And/DisjunctionMax of once-occurring words, boosts <= 1) as the optional one on 20-60 documents, "
+        "exact under Frequency and through the Lean TF_IDF/BM25F leaves; refresh = a searcher opened after the first "
+        "commits answers every query, the remaining commits follow, the searcher under test is old.refresh()); "
+        "scored paths = limit=None, terms=True and limit=1|3|10 (a hit of a top-k search carries scoreOf of its "
+        "document); a case = (index, query, scored path) or "
         "(segment, query, context) for the matcher stepping; exact stream: scoring.Frequency with dyadic "
         "boosts compared as rationals; tolerance stream: BM25F / TF_IDF / MultiWeighting against the reference "
         "formula from corpus statistics (1e-9 relative); non-trivial = non-empty answer that is not all live "
@@ -101,7 +111,9 @@ MANIFEST = {
 EXPLANATION = ("expected scores come from WM.Search.hits (scoreOf) evaluated by the compiled Lean driver, with "
                "leaf scores = stored weight (Frequency) or a per-document table of reference leaf scores")
 
-SCORED_PATHS = ["limit=None", "terms=True"]
+# limit=k: a hit of a top-k search (TopCollector: replace(minscore), block-quality skipping) carries the same
+# score as under limit=None
+SCORED_PATHS = ["limit=None", "terms=True", "limit=1", "limit=3", "limit=10"]
 
 
 def wspec_other(rng):
@@ -203,12 +215,36 @@ def run(ctx):
             w = wspec_other(rng)
             other.append(("%s:%d:o%d" % (ctx.pid, ctx.seed, i),
                           dict(base, nq=6, mode="table", weighting=w, longdocs=True,
+                               # (no top-k paths where term scores may be <= 0: the array-union finding shows
+                               # there as a missing document, which only the limit=None path can attribute)
+                               paths=SCORED_PATHS if w[0] == "function" else SCORED_PATHS[:2],
                                corr_nc=(0, 1) if w[0] == "function" else (1,))))
         huge = [("%s:%d:huge%d" % (ctx.pid, ctx.seed, i),
                  dict(base, nq=2, mode="freq", weighting=("freq",), ndocs=2300, nseg=1, maxdepth=3, max_shrinks=2,
                       vocab_n=40, sparse_or=2))
                 for i in range(ctx.budget(2, 8))]
-        jobs = corpus_jobs(ID, scratch) + huge + interleave(exact, table, final, other)
+        # top-N pruning of a weak compound optional clause (AndMaybe, and the Or that replace() turns into one):
+        # exact under Frequency, TF_IDF / BM25F through the Lean leaf models
+        lw = [("tfidf",), ("bm25f", 0.75, 1.2, {}), ("bm25f", 0.0, 2.0, {})]
+        weak = []
+        for i in range(ctx.budget(36, 300)):
+            o = dict(base, nq=6, weakopt=True, ndocs=(20, 40, 60, 30)[i % 4], nseg=(1, 2, 3)[i % 3], max_shrinks=2)
+            if i % 3 == 2:
+                weak.append(("%s:%d:w%d" % (ctx.pid, ctx.seed, i), dict(o, mode="lean", weighting=lw[(i // 3) % 3])))
+            else:
+                weak.append(("%s:%d:w%d" % (ctx.pid, ctx.seed, i), dict(o, mode="freq", weighting=("freq",), hyp=True)))
+        # history with a refresh: an older searcher has scored every query, further commits change the document
+        # count and the document frequencies, the searcher under test is old.refresh() - the statistics of its
+        # scores must be those of the generation it reads (idf-based models through the Lean leaf formulas,
+        # MultiWeighting through the harness tables)
+        refresh = []
+        for i in range(ctx.budget(30, 240)):
+            w = lw[i % 3] if i % 4 != 3 else wspec_for(rng)
+            refresh.append(("%s:%d:r%d" % (ctx.pid, ctx.seed, i),
+                            dict(base, nq=6, mode="table" if w[0] == "multi" else "lean", weighting=w, refresh=True,
+                                 nseg=(2, 3, 4)[i % 3], max_shrinks=2)))
+        # (the slow 2300-document cases are dispatched first and run beside the small ones)
+        jobs = huge + corpus_jobs(ID, scratch) + interleave(weak, refresh, exact, table, final, other)
         deadline = 40 if ctx.tier == "quick" else 450
         jobs, results = run_jobs(ctx, jobs, deadline)
         # C09.layout: the same documents under two segment layouts (no deletions)
